@@ -27,6 +27,9 @@ abbrev NodeId := Nat
 /-- the fx op kinds a leaf can have -/
 inductive Kind where
   | module | function | method
+  /-- a `call_function` that `Node.is_impure()` reports as impure (torch random functions,
+  `torch._assert`, …): `Graph.eliminate_dead_code` never removes it -/
+  | impureFunction
 deriving DecidableEq, Repr
 
 /-- what a leaf computes: op kind + canonicalised target (qualified module name, or function
@@ -65,8 +68,15 @@ def combine (c : String) (outs : List Nat) : Node := ⟨.combine c, outs⟩
 def output (a : Nat) : Node := ⟨.output, [a]⟩
 def live (nd : Node) : Bool := nd.op != .erased
 def isCombine (nd : Node) : Bool := match nd.op with | .combine _ => true | _ => false
-/-- `Node.is_impure()` for the ops the model knows: placeholders and outputs -/
-def impure (nd : Node) : Bool := match nd.op with | .input _ => true | .output => true | _ => false
+/-- `Node.is_impure()`: placeholders, outputs and the functions fx regards as impure -/
+def impure (nd : Node) : Bool :=
+  match nd.op with
+  | .input _ => true
+  | .output => true
+  | .leaf ⟨.impureFunction, _⟩ => true
+  | _ => false
+/-- placeholder or output -/
+def isIO (nd : Node) : Bool := match nd.op with | .input _ => true | .output => true | _ => false
 end Node
 
 /-- node `i` of a graph (`erased` outside) -/
@@ -520,6 +530,9 @@ def disciplineB (win : String → Nat) (g : Graph) : Bool :=
       (g.nd n).args.all fun o =>
         !(g.nd o).isCombine && (List.range g.length).all fun j => !(g.nd j).args.contains o || j == n
     | _ => true
+
+/-- no impure function among the leaves -/
+def pureLeavesB (g : Graph) : Bool := g.all fun nd => nd.impure == nd.isIO
 
 /-! ## printing (drivers) -/
 
